@@ -79,6 +79,29 @@ fn payload(id: u64, sel: u64, x: u64) -> (Vec<u8>, &'static str) {
     (v, KIND_NAME[kind])
 }
 
+/// A payload derived from one submitted earlier in the run (duplicated records, retries,
+/// fixed-layout records that differ in a trailing counter): the same bytes again, or the same
+/// length with one byte changed.  Bytes 2..4 stay zero (see `payload`).
+fn variant(prev: &[u8], sel: u64, x: u64) -> (Vec<u8>, &'static str) {
+    let mut v = prev.to_vec();
+    let n = v.len();
+    match (sel % 3, n) {
+        (0, _) | (_, 0) => (v, "same-again"),
+        (1, _) => {
+            v[n - 1] ^= 0xff;
+            (v, "last-byte-changed")
+        }
+        _ => {
+            let mut pos = (x as usize) % n;
+            if pos == 2 || pos == 3 {
+                pos = n - 1;
+            }
+            v[pos] ^= 1 + ((x >> 20) % 255) as u8;
+            (v, "one-byte-changed")
+        }
+    }
+}
+
 fn head(b: &[u8]) -> String {
     let n = b.len().min(12);
     let mut s = String::new();
@@ -342,7 +365,10 @@ impl Scenario for RtScenario {
                             let mut s = st.borrow_mut();
                             let id = s.next_id;
                             s.next_id += 1;
-                            let (p, kind) = payload(id, o[1], o[2]);
+                            let (p, kind) = match s.outs.last() {
+                                Some(prev) if o[3] % 4 == 0 => variant(&prev.payload, o[3] / 4, o[2]),
+                                _ => payload(id, o[1], o[2]),
+                            };
                             (p, kind, id)
                         };
                         let fb0 = rc.stats().fallback_operations;
@@ -595,7 +621,13 @@ impl Scenario for AdScenario {
                 0 | 1 | 2 => {
                     let id = next_id;
                     next_id += 1;
-                    let (p, kind) = payload(id, o[1], o[2]);
+                    let (p, kind) = match outs.last() {
+                        Some(prev) if o[3] % 4 == 0 => variant(&prev.payload, o[3] / 4, o[2]),
+                        _ => payload(id, o[1], o[2]),
+                    };
+                    if kind.ends_with("changed") || kind == "same-again" {
+                        cx.probe("payload_derived_from_previous");
+                    }
                     cx.ev(format!("compress p{}({} B, {}) under {}", id, p.len(), kind, algo_now));
                     match ac.compress(&p) {
                         Ok(bytes) => {
